@@ -137,7 +137,7 @@ func (m *mock) Go(b *board.Board, opts ...search.Option) (chess.Score, move.Move
 			case "info":
 				k++
 				if o.Output != nil {
-					fmt.Fprintf(o.Output, "info string search %d line %d\n", n, k)
+					fmt.Fprintf(o.Output, "info string verifmock search %d line %d\n", n, k)
 				}
 			case "finish":
 				return 0, move.From(chess.E2) | move.To(chess.E4), move.From(chess.E7) | move.To(chess.E5)
@@ -231,7 +231,7 @@ var lineRes = []*regexp.Regexp{
 	regexp.MustCompile(`^id (name|author) .*$`),
 	regexp.MustCompile(`^option name \S+ type \S+ default \S+( min \S+ max \S+)?$`),
 	regexp.MustCompile(`^bestmove ([a-h][1-8][a-h][1-8][nbrq]?|0000)( ponder [a-h][1-8][a-h][1-8][nbrq]?)?$`),
-	regexp.MustCompile(`^info string search \d+ line \d+$`),
+	regexp.MustCompile(`^info string [ -~]*$`), // any printable info string line (the mock's own lines have this form too)
 	regexp.MustCompile(`^info depth \d+ score (cp|mate) -{0,2}\d+ nodes \d+ time \d+ hashfull \d+ pv( [a-h][1-8][a-h][1-8][nbrq]?)*\s?$`),
 	regexp.MustCompile(`^info depth \d+ nodes \d+$`),
 	regexp.MustCompile(`^[1-8pnbrqkPNBRQK/]+ [wb] (-|[KQkq]+) (-|[a-h][36]) \d+ \d+$`),
@@ -431,9 +431,9 @@ func runCase(c Case, rec *evid.Rec) error {
 		case strings.HasPrefix(l.line, "bestmove"):
 			best++
 			curSearch = best
-		case strings.HasPrefix(l.line, "info string search "):
+		case strings.HasPrefix(l.line, "info string verifmock search "):
 			var n, k int
-			fmt.Sscanf(l.line, "info string search %d line %d", &n, &k)
+			fmt.Sscanf(l.line, "info string verifmock search %d line %d", &n, &k)
 			if n != curSearch+1 {
 				return fmt.Errorf("info line of search %d appears after %d bestmove lines: %q", n, best, l.line)
 			}
@@ -489,9 +489,19 @@ func checkCase(c Case, rec *evid.Rec) error {
 	if !isHang {
 		return err
 	}
-	// a 20 s wait expired: a violation only if the same schedule hangs twice more (three in a row);
-	// all driver goroutines parked = deadlock, otherwise the driver / search is busy but unresponsive
-	_, parked, _ := uciGoroutines()
+	// a 20 s wait expired. If every driver goroutine is parked in a channel operation / wait and still is a
+	// second later, nothing can make progress any more although a reply is owed: deadlock (timing dependent
+	// deadlocks need not reproduce, so no re-run is required). Otherwise (goroutines still running) it is a
+	// violation only if the same schedule hangs twice more (three in a row).
+	_, parked, dump1 := uciGoroutines()
+	if parked {
+		time.Sleep(time.Second)
+		_, parked2, dump2 := uciGoroutines()
+		strip := regexp.MustCompile(`, \d+ minutes\]|\+0x[0-9a-f]+`)
+		if parked2 && strip.ReplaceAllString(dump1, "") == strip.ReplaceAllString(dump2, "") {
+			return fmt.Errorf("deadlock: %s; all driver goroutines are parked and stay so:\n%s", h.what, dump2)
+		}
+	}
 	for i := 0; i < 2; i++ {
 		e2 := runCase(c, nil)
 		if _, again := e2.(*hangErr); !again {
@@ -576,8 +586,14 @@ func mockRound(t *rapid.T, ponderOn bool) (evs []Ev, ends bool) {
 		switch gen.Draw(t, 0, 5, "what") {
 		case 0, 1:
 			evs = append(evs, Ev{K: "info"})
-		case 2, 3:
+		case 2:
 			evs = append(evs, Ev{K: "send", Arg: "isready"})
+		case 3:
+			if gen.Chance(t, 1, 3, "debugCmd") { // the protocol allows debug at any time, also while the engine is thinking
+				evs = append(evs, Ev{K: "send", Arg: []string{"debug on", "debug off"}[gen.Draw(t, 0, 1, "dbg")]})
+			} else {
+				evs = append(evs, Ev{K: "send", Arg: "isready"})
+			}
 		case 4:
 			if pondering {
 				evs = append(evs, Ev{K: "send", Arg: "ponderhit"})
@@ -657,9 +673,11 @@ func realRound(t *rapid.T, ponderOn bool) (evs []Ev, ends bool) {
 	evs = append(evs, Ev{K: "go", Arg: args})
 	n := gen.Draw(t, 0, 4, "during")
 	for i := 0; i < n; i++ {
-		switch gen.Draw(t, 0, 2, "what") {
+		switch gen.Draw(t, 0, 3, "what") {
 		case 0:
 			evs = append(evs, Ev{K: "send", Arg: "isready"})
+		case 3:
+			evs = append(evs, Ev{K: "send", Arg: []string{"debug on", "debug off"}[gen.Draw(t, 0, 1, "dbg")]})
 		default:
 			evs = append(evs, Ev{K: "sleep", N: gen.Draw(t, 0, 2000, "us")})
 		}
@@ -745,7 +763,7 @@ func sweep(rec *evid.Rec) bool {
 func TestC13(t *testing.T) {
 	_ = srch.MaskTime
 	evid.Main(t, "C13", func(rec *evid.Rec) {
-		rec.Rule("in-process uci.Driver on pipes, race detector on. Controllable mock search (announces start, emits info lines and finishes on command, on stop, or never): systematic sweep command {isready, stop, quit, end of input, ponderhit} x phase {before the search started, right after start, after two info lines, coincident with the finish signal in three orders, after bestmove}, repeated; rapid grammar-generated conforming sessions (uci/isready/setoption/debug/ucinewgame preamble, 1..5 rounds of position + go {infinite, depth, nodes, clocks, movetime, tiny clocks, ponder} with drawn commands at drawn phases, ending by finish / stop / coincident command / quit / end of input / hard timer). Real search with small limits and drawn microsecond delays before isready/stop/quit. Transcript oracle: every line matches the line grammar (no torn lines); one bestmove per go, after all info lines of that search and none of a later search before it; readyok k never before isready k, totals equal; Run returns after quit / end of input; afterwards no goroutine has a driver frame; no panic; race detector silent. Waits have a 20 s ceiling: a schedule whose wait expires three times in a row is a violation (deadlock if all driver goroutines are parked, unresponsive otherwise); an expiry that does not reproduce is inconclusive (exit 2). Non-trivial = a command delivered while a search was in flight or coincident with its end; distinct by schedule")
+		rec.Rule("in-process uci.Driver on pipes, race detector on. Controllable mock search (announces start, emits info lines and finishes on command, on stop, or never): systematic sweep command {isready, stop, quit, end of input, ponderhit} x phase {before the search started, right after start, after two info lines, coincident with the finish signal in three orders, after bestmove}, repeated; rapid grammar-generated conforming sessions (uci/isready/setoption/debug/ucinewgame preamble, 1..5 rounds of position + go {infinite, depth, nodes, clocks, movetime, tiny clocks, ponder} with drawn commands at drawn phases, ending by finish / stop / coincident command / quit / end of input / hard timer). Real search with small limits and drawn microsecond delays before isready/stop/quit. Transcript oracle: every line matches the line grammar (no torn lines); one bestmove per go, after all info lines of that search and none of a later search before it; readyok k never before isready k, totals equal; Run returns after quit / end of input; afterwards no goroutine has a driver frame; no panic; race detector silent. Waits have a 20 s ceiling: an expiry with every driver goroutine parked (and still parked a second later) is a deadlock; an expiry with running goroutines is a violation if the same schedule expires three times in a row, otherwise inconclusive (exit 2). Non-trivial = a command delivered while a search was in flight or coincident with its end; distinct by schedule")
 		rec.Assume("the Go scheduler is not fully under harness control: interleavings inside the driver are sampled - repetition, GOMAXPROCS variation across shards, the race detector, and yields / sleeps injected at 12 named points of the driver's goroutines through the uci.VerifSetSched hook (a drawn 'hot' point is delayed every time it is reached) - not enumerated")
 		rec.Note("GOMAXPROCS=%d", runtime.GOMAXPROCS(0))
 		if !sweep(rec) {
